@@ -4,9 +4,14 @@ use std::{
     collections::HashSet,
     error::Error,
     net::{SocketAddr, UdpSocket},
-    sync::{Arc, RwLock},
+    sync::Arc,
     time::{Duration, Instant},
 };
+
+#[cfg(simple_dns_verif)]
+use crate::verif_lock::RwLock;
+#[cfg(not(simple_dns_verif))]
+use std::sync::RwLock;
 
 use crate::{
     resource_record_manager::{DomainResourceFilter, ResourceRecordManager},
